@@ -71,6 +71,17 @@ func (fv *FV) term(st *State, v SymVal, t types.Type) Term {
 			return Term{S: name, Sort: SInt, T: t}
 		}
 	}
+	if v.K == VGlobalPtr && len(v.Path) == 0 && v.Global != nil {
+		// address of a package-level variable of a type from outside the repository (a sync.Pool, a
+		// sync.Map, ...), used as the receiver of library calls: a stable pseudo reference, not fresh
+		if el, ok := v.Global.Type().(*types.Pointer); ok {
+			if _, isStruct := el.Elem().Underlying().(*types.Struct); isStruct && fv.structSortName(el.Elem()) == "" {
+				name := "pv_globalref_" + smtName(v.Global.Pkg.Pkg.Name()+"_"+v.Global.Name())
+				fv.decls.Add(1, name, fmt.Sprintf("(declare-const %s Int)\n(assert (< %s 0))", name, name))
+				return Term{S: name, Sort: SInt, T: t}
+			}
+		}
+	}
 	fv.outsidef("address of local/field used as a value in %s", st.frame.Fn.Name())
 	return fv.freshConst(st, "addr", SInt, t)
 }
